@@ -124,5 +124,29 @@ def big : Handler := fun args impl =>
     { model := e, specs := (if (impl.splitOn "PANIC").length > 1 then ["C14 panic on a pathological input"] else []) }
   | _ => bad "arity"
 
-def handlers : List (String × Handler) := [("pv", parseAll .value), ("pi", parseAll .ignored), ("big", big)]
+/-- `tdepth <cfg> <levels> <mix>`: typed target made of arrays / enum wrappers nested `levels` deep:
+    accepted iff at most 127 containers are open at once, else the recursion-limit error -/
+def tdepth : Handler := fun args impl =>
+  match args with
+  | [_, ls, _] =>
+    match ls.toNat? with
+    | some l =>
+      let e := if l ≤ 127 then "ok" else "err:" ++ hexOfBytes (Gen.message .RecursionLimitExceeded)
+      { model := e, specs := if impl == e then [] else [s!"C14 typed target nested {l} deep: got {impl}, expected {e}"] }
+    | none => bad "levels"
+  | _ => bad "arity"
+
+/-- `udepth <cfg> <limited|direct|stream> <depth>` (unbounded_depth): with the limit disabled deeper documents parse -/
+def udepth : Handler := fun args impl =>
+  match args with
+  | [_, mode, ds] =>
+    match ds.toNat? with
+    | some d =>
+      let e := if mode == "limited" && d > 127 then "err:syntax" else "ok"
+      { model := e, specs := if impl == e then [] else [s!"C14 unbounded_depth ({mode}) at depth {d}: got {impl}, expected {e}"] }
+    | none => bad "depth"
+  | _ => bad "arity"
+
+def handlers : List (String × Handler) :=
+  [("pv", parseAll .value), ("pi", parseAll .ignored), ("big", big), ("tdepth", tdepth), ("udepth", udepth)]
 end SJ.Drv.C01
